@@ -174,6 +174,8 @@ impl Scheduler {
         'work: loop {
             match local.pop() {
                 Some(co) => {
+                    #[cfg(may_verif)]
+                    crate::verif::event("sc.pop", id as u64, 1);
                     run_coroutine(co);
                     budget -= 1;
                     if budget == 0 {
@@ -185,6 +187,8 @@ impl Scheduler {
                     continue 'work;
                 }
                 None => {
+                    #[cfg(may_verif)]
+                    crate::verif::event("sc.pop", id as u64, 0);
                     self.collect_global(id);
                     if local.has_tasks() {
                         continue 'work;
@@ -203,6 +207,8 @@ impl Scheduler {
                 };
                 let stealer = self.stealers.get(target).unwrap();
                 if let Some(co) = stealer.steal_into(local) {
+                    #[cfg(may_verif)]
+                    crate::verif::event("sc.steal", id as u64, target as u64);
                     run_coroutine(co);
                     continue 'work;
                 }
@@ -279,8 +285,12 @@ impl Scheduler {
         #[cfg(not(feature = "work_steal"))]
         let local = unsafe { self.local_queues.get_unchecked(id) };
         let global = unsafe { self.global_queues.get_unchecked(id) };
+        #[cfg(may_verif)]
+        crate::verif::event("sc.collect", id as u64, 0);
         let mut v = global.bulk_pop();
         while !v.is_empty() {
+            #[cfg(may_verif)]
+            crate::verif::event("sc.batch", id as u64, v.len() as u64);
             for co in v {
                 #[cfg(feature = "work_steal")]
                 local.push_back(co);
@@ -289,6 +299,8 @@ impl Scheduler {
             }
             v = global.bulk_pop();
         }
+        #[cfg(may_verif)]
+        crate::verif::event("sc.collected", id as u64, 0);
     }
 
     #[inline]
